@@ -317,10 +317,10 @@ ProcOwnEcho(cs, c, e, g) ==
 
 RECURSIVE Process(_, _, _, _, _)
 
-\* W: epoch mismatch
-ProcWrongEpoch(cs0, c, e, g, recEpoch, nm, n) ==
-    LET cs == IF ev[e].kind = "commit" THEN Hydrate(cs0, g) ELSE cs0 IN      \* is_better_candidate hydrates first
-    IF (ev[e].kind = "commit" \/ "StaleHandshakeRollback" \in Dev)       \* only commits compete for an epoch
+\* W: epoch mismatch (isCommit: the MLS framing says "commit")
+ProcWrongEpoch(cs0, c, e, g, recEpoch, nm, n, isCommit) ==
+    LET cs == IF isCommit THEN Hydrate(cs0, g) ELSE cs0 IN                   \* is_better_candidate hydrates first
+    IF (isCommit \/ "StaleHandshakeRollback" \in Dev)                    \* only commits compete for an epoch
        /\ IsBetterCandidate(cs, g, n, e) /\ HasStored(cs, g, SnapIdx(cs, g, n))
     THEN LET cs1 == RollbackTo(cs, g, n)
              inv == {k \in DOMAIN cs1.msgs : k[1] = g /\ cs1.msgs[k].epoch > n}
@@ -344,6 +344,10 @@ Process(cs, c, e, nm, first) ==
     IF r.state \in {"failed", "epoch_invalidated"}
     THEN Ret(cs, IF RouteSet(cs, E.tag) # {} THEN "Unprocessable" ELSE "PreviouslyFailed")
     ELSE
+    \* V1: event validation (kind, timestamp window, exactly one well-formed h tag)
+    IF E.kind = "junk" /\ E.jclass \in {"badkind", "stale", "future", "noh", "multih", "shorth", "nonhexh"}
+    THEN Ret(RecordFailure(cs, e, "", NoEpoch), "Err")
+    ELSE
     \* G2: find the group by the tag in force
     IF RouteSet(cs, E.tag) = {} THEN Ret(RecordFailure(cs, e, "", NoEpoch), "Err")
     ELSE
@@ -359,24 +363,32 @@ Process(cs, c, e, nm, first) ==
         gsS  == csS.g[g]
         opens == \E n \in (cur - Lookback)..cur :
                     /\ n >= 0
+                    /\ ~(E.kind = "junk" /\ E.jclass \in {"undecryptable", "nogroup"})
                     /\ SecretAt(gsS, n) = <<"chain", E.parent>>
                     /\ E.g = g
         en   == EpochOf(g, E.parent) IN
     IF ~opens THEN Ret(RecordFailure(csS, e, g, NoEpoch), "Err")
     ELSE
-    \* M3: the MLS layer
+    \* M3: the MLS layer.  A tampered copy (bit flipped in the ciphertext) of a real event keeps that event's
+    \* framing: epoch, content type and sender data are read before the AEAD check fails.
+    LET tampered == E.kind = "junk" /\ E.jclass = "bitflip" /\ E.base # NoE
+        K == IF tampered THEN ev[E.base].kind ELSE E.kind             \* effective content type
+        A == IF tampered THEN ev[E.base].author ELSE E.author         \* effective MLS sender
+    IN
     IF gsS.mls = "evicted" THEN FailUnprocessable(csS, e, g, recEpoch)
-    ELSE IF (E.kind # "app" /\ en # cur) \/ (E.kind = "app" /\ en > cur)
-    THEN IF first THEN ProcWrongEpoch(csS, c, e, g, recEpoch, nm, en)
+    ELSE IF E.kind = "junk" /\ ~tampered THEN FailUnprocessable(csS, e, g, recEpoch)   \* garbage / truncated payload
+    ELSE IF (K # "app" /\ en # cur) \/ (K = "app" /\ en > cur)
+    THEN IF first THEN ProcWrongEpoch(csS, c, e, g, recEpoch, nm, en, K = "commit")
          ELSE FailUnprocessable(csS, e, g, recEpoch)
-    ELSE IF E.kind = "app" /\ en < cur /\ ~(\E i \in DOMAIN gsS.past : gsS.past[i] = E.parent)
+    ELSE IF K = "app" /\ en < cur /\ ~(\E i \in DOMAIN gsS.past : gsS.past[i] = E.parent)
     THEN FailUnprocessable(csS, e, g, recEpoch)                                 \* past-epoch secrets gone
     ELSE IF en = cur /\ E.parent # gsS.chain
     THEN FailUnprocessable(csS, e, g, recEpoch)                                 \* same epoch number, other branch
-    ELSE IF E.author = c
-    THEN IF E.kind = "commit" /\ gsS.pend # NoE
-         THEN ProcOwnPending(csS, c, e, g, recEpoch)
+    ELSE IF A = c
+    THEN IF K = "commit" /\ gsS.pend # NoE
+         THEN ProcOwnPending(csS, c, e, g, recEpoch)     \* (also for a tampered copy: the pending commit is merged)
          ELSE ProcOwnEcho(csS, c, e, g)
+    ELSE IF tampered THEN FailUnprocessable(csS, e, g, recEpoch)                \* AEAD failure
     ELSE IF Gen(e) \in gsS.consumed \/ E.author \notin GS(g, E.parent).members
     THEN FailUnprocessable(csS, e, g, recEpoch)                                 \* ratchet generation already used / unknown sender
     ELSE
@@ -614,6 +626,14 @@ DeclineWelcome(c, w) ==
        /\ hist' = [hist EXCEPT !.wreset = IF cl[c][g].mls # "none" THEN @ \cup {<<c, g>>} ELSE @]
     /\ UNCHANGED <<ginfo, ev, proc, msgs, snapq, hyd, withdrawn, wl, pwelc>>
 
+\* a hostile or malformed wrapper event appears on the relays (built with knowledge of client c's view of g)
+PublishJunk(c, g, nm, class, tag, base, par) ==
+    /\ Created(g) /\ nm.name \notin DOMAIN ev
+    /\ ev' = ev @@ (nm.name :> [name |-> nm.name, kind |-> "junk", jclass |-> class, g |-> g, author |-> "",
+                                parent |-> IF base # NoE THEN ev[base].parent ELSE par, ts |-> nm.ts, rank |-> nm.rank,
+                                tag |-> tag, gen |-> 0, base |-> base])
+    /\ UNCHANGED <<ginfo, cl, proc, msgs, snapq, hyd, withdrawn, wl, welc, pwelc, hist>>
+
 \* at the moment of a first hand-over: is the event outside the configured windows?
 OutsideWindow(c, e) ==
     LET g == ev[e].g
@@ -821,6 +841,15 @@ Handled(c, e) ==
 C03_OnlyMembers == \A c \in Clients : \A k \in DOMAIN msgs[c] :
                       LET e == msgs[c][k].w IN
                       e \in DOMAIN ev => c \in GS(k[1], ev[e].parent).members
+
+\* --- C06: a refused event has no effect (the dedup record is the only thing allowed to change) ---
+Refusals == {"Err", "Unprocessable", "PreviouslyFailed", "IgnoredProposal"}
+\* finding RefusedLeaveStaysQueued: an admin that cannot auto-commit a member's leave (it holds a pending commit,
+\* or its own removal is queued) answers Unprocessable but has queued the proposal
+Excused_RefusedLeaveQueued(c, e) ==
+    /\ "RefusedLeaveStaysQueued" \in Dev
+    /\ ev[e].kind = "prop" /\ ev[e].pkind = "leave"
+    /\ c \in GS(ev[e].g, cl[c][ev[e].g].chain).admins
 
 \* --- C08: the stored record mirrors the MLS state (checked after every call) ---
 \* (finding WelcomeOverwritesActiveGroup: a welcome for a group the client already holds rewrites the record /
